@@ -127,6 +127,9 @@ func verifC37Exec(op string) string {
 	if f[0] == "reset" { // records are independent: every case is its own one-op history
 		return "ok"
 	}
+	if f[0] == "conc" {
+		return verifC37Conc(f)
+	}
 	if f[0] != "log" {
 		return "bad-op"
 	}
@@ -265,6 +268,9 @@ func verifC37Msg(r *verifutil.Rand, thorough bool) string {
 }
 
 func verifC37Gen(r *verifutil.Rand, i int, thorough bool) []string {
+	if i%2000 == 500 { // concurrent writers (child process, ≈ 1 s each): structured, plain, structured, …
+		return []string{fmt.Sprintf("conc %d %d %d", 4+r.Intn(9), 150+r.Intn(300), 1-(i/2000)%2)}
+	}
 	msg := verifC37Msg(r, thorough)
 	format, arg := "%s", "s:"+verifutil.HexS(msg)
 	switch r.Intn(10) {
@@ -373,6 +379,6 @@ func TestVerifC37(t *testing.T) {
 	verifutil.Main(t, &verifutil.Harness{
 		ID: "C37", Exec: verifC37Exec, Gen: verifC37Gen, Quick: 5000, Thorough: 100000,
 		Class:      verifC37Class,
-		NonTrivial: func(op, impl string) bool { return strings.HasPrefix(op, "log") },
+		NonTrivial: func(op, impl string) bool { return strings.HasPrefix(op, "log") || strings.HasPrefix(op, "conc") },
 	})
 }
